@@ -18,7 +18,9 @@ EXPLANATION = (
     "libPutHeader and then fileCloseOut(lib->name, lib->file) on every path and never a raw fclose. O3: the checked close "
     "itself tests ferror(file) and the result of fclose(file) and calls (*fileError) on failure; compFileError, the "
     "installed handler, ends in comsgFatal. Scope: the outputs named by the property (-Fai -Fap -Fasy -Fao -Ffm -Flsp -Fc "
-    "-Fjava -Fmain); gencpp.c (C++ stubs, raw fopen) is outside that list and reported as a note only.")
+    "-Fjava -Fmain). O4: O3 relies on the stream's sticky error indicator surviving until the close, so every call of "
+    "rewind/clearerr/freopen in the compiler must take a stream all of whose values in that function are read-mode opens (or a "
+    "parameter frozen with its reason); gencpp.c (C++ stubs, raw fopen) is outside that list and reported as a note only.")
 
 WRITE_CHARS = set("wa+")
 SCOPE_NOTE_UNITS = {"gencpp.c"}
@@ -208,6 +210,48 @@ def check_function(rep, unit, fn, modes, note_only=False):
     return n
 
 
+CLEARERS = {"rewind": 0, "clearerr": 0, "clearerr_unlocked": 0, "freopen": 2}
+
+
+def clear_sites(unit, fn, modes):
+    """O4 facts: calls that reset a stream's sticky error indicator, with the
+    origin of the stream argument as far as it is visible in the function."""
+    out = []
+    for c in calls(fn["body"]):
+        cal = c.get("callee")
+        if cal not in CLEARERS or len(c["c"]) <= CLEARERS[cal] + 1:
+            continue
+        arg = c["c"][CLEARERS[cal] + 1]
+        v = var_of(arg)
+        origin = "other"
+        if v is not None:
+            s = strip(arg)
+            if s.get("dk") == "parm":
+                origin = "param"
+            else:
+                # every value the variable receives in this function: read-mode open or a null constant
+                srcs = []
+                for x in walk(fn["body"]):
+                    if x["k"] == "BinaryOperator" and x["op"] == "=" and var_of(x["c"][0]) == v:
+                        srcs.append(strip(x["c"][1]))
+                    if x["k"] == "VarDecl" and x.get("id") == v[0] and x.get("c"):
+                        srcs.append(strip(x["c"][0]))
+                good = bool(srcs)
+                for r in srcs:
+                    if r is None:
+                        good = False
+                    elif r["k"] == "CallExpr" and r.get("callee") in ("fileMustOpen", "fileTryOpen", "fopen") and len(r["c"]) >= 3 \
+                            and mode_is_write(r["c"][2], modes) is False:
+                        continue
+                    elif common.const_value(r) == 0:
+                        continue
+                    else:
+                        good = False
+                origin = "read-open" if good else "other"
+        out.append({"unit": unit, "fn": fn["n"], "line": c["l"], "callee": cal, "stream": common.render(arg), "origin": origin})
+    return out
+
+
 def check_libclose(rep, f_lib):
     fn = f_lib.func("libClose")
     cfg = CFG(fn)
@@ -318,12 +362,14 @@ def _unit_digest(f):
     u = f.unit
     per_fn = {}
     nfuncs = 0
+    clearers = []
     for name, fn in f.funcs.items():
         if "body" not in fn or fn.get("file", "").endswith(".h"):
             continue
         if not fn["file"].endswith(u):
             continue
         nfuncs += 1
+        clearers += clear_sites(u, fn, modes)
         if u == "file.c" and name in ("fileMustOpen", "fileTryOpen", "fileIsOpenable"):
             continue   # the helpers themselves: they return the stream or close a probe opened with the caller's mode
         strict, lax = _Rec(), _Rec()
@@ -334,7 +380,7 @@ def _unit_digest(f):
     extra = None
     if u == "lib.c":
         r = _Rec(); check_libclose(r, f); extra = ("lib", r.items)
-    return {"referenced": referenced, "per_fn": per_fn, "nfuncs": nfuncs, "extra": extra}
+    return {"referenced": referenced, "per_fn": per_fn, "nfuncs": nfuncs, "extra": extra, "clearers": clearers}
 
 
 _MODES = None
@@ -374,6 +420,25 @@ def run(tier, only=None):
         if d["extra"]:
             _replay(rep, d["extra"][1])
     rep.floor("write-mode open sites in emit.c", emit_sites, 11)
+    # O4: nothing resets the error indicator of a stream that may be a write stream
+    import json, os
+    allowed = json.load(open(os.path.join(os.path.dirname(__file__), "frozen", "c18_clearerr_params.json")))
+    nclear = 0
+    for u in sorted(dig):
+        for cs in dig[u]["clearers"]:
+            nclear += 1
+            key = "%s:%s:%s(%s)" % (cs["unit"], cs["fn"], cs["callee"], cs["stream"])
+            where = "%s:%d (%s)" % (cs["unit"], cs["line"], cs["fn"])
+            if cs["origin"] == "read-open":
+                rep.ok("O4", key, sample={"site": where, "how": "every value of the stream variable in this function is a read-mode open"})
+            elif cs["origin"] == "param" and "%s:%s:%s" % (cs["unit"], cs["fn"], cs["stream"]) in allowed:
+                rep.ok("O4", key, sample={"site": where, "how": "parameter: " + allowed["%s:%s:%s" % (cs["unit"], cs["fn"], cs["stream"])]})
+            else:
+                rep.violation("O4", key, where,
+                              "%s() resets the sticky error indicator of stream %s, which is not provably a read-only stream: an earlier "
+                              "failed write would be forgotten and the checked close (O3: ferror at fileCloseOut) would report success"
+                              % (cs["callee"], cs["stream"]))
+    rep.floor("error-indicator reset sites examined (rewind/clearerr/freopen)", nclear, 2)
     f_file = common.extract("file.c", trees=["fileCloseOut"])
     f_axl = common.extract("axlcomp.c", all_trees=True)
     check_close_helper(rep, f_file, f_axl)
